@@ -235,8 +235,7 @@ structure SansOk (ids : List Identifier) (c : Csr) (tmp : List Str) (l : List Sa
   ips : c.ips.map to16 = uniqueSortedIPs (ipsOf ids)
   csrIpsNonNil : ∀ x ∈ c.ips, x ≠ []
   orderIpsNonNil : ∀ y ∈ uniqueSortedIPs (ipsOf ids), y ≠ []
-  out : l = c.dns.map San.dns ++ c.ips.map (fun x => San.ip (to16 x)) ++ (sortU tmp).map San.uri ++
-            List.replicate (c.uris - (sortU tmp).length) San.empty
+  out : l = c.dns.map San.dns ++ c.ips.map (fun x => San.ip (to16 x)) ++ (sortU tmp).map San.uri
 
 theorem sans_ok (ids : List Identifier) (c : Csr) (l : List San)
     (h : sans ids c = .val (.ok l)) : ∃ tmp, wireUris ids = some tmp ∧ SansOk ids c tmp l := by
@@ -322,9 +321,8 @@ theorem sans_ok (ids : List Identifier) (c : Csr) (l : List San)
     simp [ipsAreEqual] at e
     exact e.1.2
   · subst h
-    rw [hacc3, hacc2, hacc, huris, hx3, hx2, hx1]
-    simp [Csr.uris, huris]
-    omega
+    rw [hacc3, hacc2, hacc, huris]
+    simp
 
 theorem sans_total (ids : List Identifier) (c : Csr) : sans ids c ≠ .crash := by
   unfold sans
@@ -585,7 +583,7 @@ theorem namesMatch_of_sans (ids : List Identifier) (b : Bool) (c : Csr) (l : Lis
     have : to16 id.ip ∈ uniqueSortedIPs (ipsOf ids) :=
       (usi_mem _ _).mpr ⟨id.ip, (ipsOf_mem _ _).mpr ⟨id, hid, ht, rfl⟩, rfl⟩
     exact ok.orderIpsNonNil _ this ((to16_nil _).mpr hnil)
-  · rw [ok.out, ok.dns, ← ok.ips, List.map_map, hnoUri]; simp [sortU]
+  · rw [ok.out, ok.dns, ← ok.ips, List.map_map]; simp [sortU]
 
 /-- the blanking flag Finalize uses -/
 def blankOf (ids : List Identifier) (c : Csr) : Bool := decide (pidOf ids ≠ [] ∧ c.cn = pidOf ids)
@@ -1317,25 +1315,27 @@ example :
     = .val (.acceptWire (s "Alice") (s "wire.com") [San.uri (s "wireapp://%40alice@wire.com"), San.uri (s "wireapp://a!b@wire.com")]) := by
   decide
 
-/-- **wire_unwritten_slot** (found by the correspondence, low severity): when handle and client id of a
-    Wire order are the same URI and the CSR repeats it, the SAN list handed to the template has an
-    entry that was never written — the slice is sized by `len(csr.URIs)` before de-duplication —
-    and the issued certificate carries an empty DNS name. (Before /repo b009637 this case indexed
-    out of range.) -/
-theorem wire_unwritten_slot :
+/-- **wire_unwritten_slot_historic** (finding C13-F3, found by the correspondence, reproduced end to
+    end, fixed in /repo 167bc71): when handle and client id of a Wire order are the same URI and the
+    CSR repeats it, the SAN list `sans` handed to the template had an entry that was never written —
+    the slice was sized by `len(csr.URIs)` before de-duplication and returned whole — and the issued
+    certificate carried an empty DNS name. (Before /repo b009637 this case indexed out of range.)
+    The repaired function returns the written entries only. -/
+theorem wire_unwritten_slot_historic :
     let user : Identifier := { typ := .wireUser, value := s "u", wire := { parsed := true, name := s "A", domain := s "w", uri := some (s "wireapp://x") } }
     let dev : Identifier := { typ := .wireDevice, value := s "d", wire := { parsed := true, name := s "A", domain := s "w", uri := some (s "wireapp://x") } }
-    finalizeNames [user, dev] [[], []] (some (s "k"))
-      { cn := [], cnIp := [], dns := [], ips := [], emails := 0, uriStrs := [s "wireapp://x", s "wireapp://x"],
-        displayNames := [some (s "A")], orgs := [s "w"] }
-    = .val (.acceptWire (s "A") (s "w") [San.uri (s "wireapp://x"), San.empty]) := by
+    let c : Csr := { cn := [], cnIp := [], dns := [], ips := [], emails := 0, uriStrs := [s "wireapp://x", s "wireapp://x"], displayNames := [some (s "A")], orgs := [s "w"] }
+    sansHistoric [user, dev] c = .val (.ok [San.uri (s "wireapp://x"), San.empty]) ∧
+    sans [user, dev] c = .val (.ok [San.uri (s "wireapp://x")]) ∧
+    finalizeNames [user, dev] [[], []] (some (s "k")) c = .val (.acceptWire (s "A") (s "w") [San.uri (s "wireapp://x")]) := by
   decide
 
-/-- with pairwise different order URIs no slot stays unwritten -/
+/-- **wire_no_empty_slot** (since /repo 167bc71 without a hypothesis on the order's URIs): no SAN of an
+    accepted Wire order is an unwritten slot; together with `wire_names` the SANs are exactly the
+    de-duplicated URIs of the identifiers. -/
 theorem wire_no_empty_slot (ids : List Identifier) (azFps : List Str) (csrFp : Option Str) (c : Csr)
-    (cn org : Str) (l : List San) (tmp : List Str)
-    (h : finalizeNames ids azFps csrFp c = .val (.acceptWire cn org l))
-    (htmp : wireUris ids = some tmp) (hnd : (sortU tmp).length = tmp.length) : San.empty ∉ l := by
+    (cn org : Str) (l : List San)
+    (h : finalizeNames ids azFps csrFp c = .val (.acceptWire cn org l)) : San.empty ∉ l := by
   unfold finalizeNames at h
   simp only at h
   repeat' split at h
@@ -1348,8 +1348,7 @@ theorem wire_no_empty_slot (ids : List Identifier) (azFps : List Str) (csrFp : O
        | val v =>
          cases v <;> simp [hs, finOfSansWire] at h
          obtain ⟨tmp', htmp', ok⟩ := sans_ok _ _ _ hs
-         rw [htmp] at htmp'; cases htmp'
-         rw [← h.2.2, ok.out, ok.uriCount, hnd]
+         rw [← h.2.2, ok.out]
          simp)
     | (cases hs : sans ids (canonFor (pidOf ids) c) with
        | crash => simp [hs, finOfSans, finOfSansAttested] at h
